@@ -21,10 +21,10 @@ M = A + "crypto::merkle::"
 MT = M + "MerkleTree::"
 
 
-def walkers(prog):
+def walkers(prog, prefix=None):
     """bodies in crypto::merkle that consume an index bit per proof element: contain `x % 2` and `x / 2` on a local fed from param index"""
     out = []
-    for b in K.bodies_in(prog, M):
+    for b in K.bodies_in(prog, prefix or M):
         rem = div = None
         for (bb, i, dst, rv, sp) in b.assignments():
             if rv["k"] == "bin" and rv["op"] in ("Rem", "BitAnd", "Div", "Shr"):
@@ -40,6 +40,176 @@ def walkers(prog):
         if rem and div:
             out.append((b, rem, div))
     return out
+
+
+class Unknown(Exception):
+    pass
+
+
+def eval_idx(t, env):
+    """integer value of a guard term under env: {'index': predicate->int, ...}; env(t) returns an int for leaves it knows.
+    Option values are ('opt', v|None). Raises Unknown for anything else (the rule then does not decide exactness)."""
+    v = env(t)
+    if v is not None:
+        return v
+    if not isinstance(t, tuple) or not t:
+        raise Unknown(repr(t))
+    k = t[0]
+    if k == "const" and isinstance(t[2], int):
+        return t[2]
+    if k in ("cast",):
+        return eval_idx(t[2], env)
+    if k in ("copy", "move", "deref", "ref"):
+        return eval_idx(t[1], env)
+    if k == "field" and t[2] == "0" and isinstance(t[1], tuple) and t[1][0] == "bin" and t[1][1].endswith("WithOverflow"):
+        return eval_idx(("bin", t[1][1][:-len("WithOverflow")], t[1][2], t[1][3]), env)
+    if k == "bin":
+        a, b = eval_idx(t[2], env), eval_idx(t[3], env)
+        if not isinstance(a, int) or not isinstance(b, int):
+            raise Unknown(mir.show(t))
+        op = t[1].replace("Unchecked", "")
+        if op == "Add":
+            return a + b
+        if op == "Sub":
+            if a < b:
+                raise Unknown("underflow")
+            return a - b
+        if op == "Mul":
+            return a * b
+        if op == "Div" and b:
+            return a // b
+        if op == "Rem" and b:
+            return a % b
+        if op == "Shl":
+            return a << b
+        if op == "Shr":
+            return a >> b
+        if op == "BitAnd":
+            return a & b
+        raise Unknown(mir.show(t))
+    if k == "call":
+        nm = t[1].rsplit("::", 1)[-1]
+        args = t[2]
+        if nm in ("checked_shr", "checked_shl") and len(args) == 2:
+            a, b = eval_idx(args[0], env), eval_idx(args[1], env)
+            if b >= 64:
+                return ("opt", None)
+            return ("opt", (a >> b) if nm == "checked_shr" else ((a << b) & (2 ** 64 - 1)))
+        if nm == "unwrap_or" and len(args) == 2:
+            o = eval_idx(args[0], env)
+            if isinstance(o, tuple) and o[0] == "opt":
+                return eval_idx(args[1], env) if o[1] is None else o[1]
+        if nm in ("from", "into", "clone") and len(args) == 1:
+            return eval_idx(args[0], env)
+    raise Unknown(mir.show(t))
+
+
+def eval_atom(kind, args, env):
+    if kind == "eq":
+        return eval_idx(args[0], env) == eval_idx(args[1], env)
+    if kind == "lt":
+        a, b = eval_idx(args[0], env), eval_idx(args[1], env)
+        if not isinstance(a, int) or not isinstance(b, int):
+            raise Unknown("lt on non-int")
+        return a < b
+    if kind == "is_some":
+        o = eval_idx(args[0], env)
+        if isinstance(o, tuple) and o[0] == "opt":
+            return o[1] is not None
+    raise Unknown(kind)
+
+
+def make_env(body, idxpos, proofpos, idx, L, walking=None, walk_val=None):
+    def env(t):
+        if not isinstance(t, tuple) or not t:
+            return None
+        if walking is not None and t == walking:
+            return walk_val
+        if t[0] == "param" and t[1] == idxpos:
+            return idx
+        if (t[0] == "call" and t[1].rsplit("::", 1)[-1] == "len") or (t[0] == "un" and "PtrMetadata" in str(t[1])):
+            if K.mentions_arg(body, t, proofpos) and not K.mentions_arg(body, t, idxpos):
+                return L
+        return None
+    return env
+
+
+DOMAIN = [(idx, L) for L in range(0, 6) for idx in range(0, 2 ** (L + 1) + 3)]
+
+
+def index_domain_wrong(b, prog, walking, div_bb, idxpos, proofpos):
+    """(index, len) pairs on which an Option-returning walker alone deviates from 'accepted <=> index < 2^len'"""
+    acc = walker_accepts(b, prog, walking, div_bb, idxpos, proofpos)
+    return [(idx, L) for (idx, L) in DOMAIN if (True if acc is None else acc(idx, L)) != (idx < 2 ** L)]
+
+
+def walker_accepts(b, prog, walking, div_bb, idxpos, proofpos):
+    """for an Option-returning walker: function (idx, L) -> bool, the conjunction of all index conditions guarding its Some
+    results; None when there are none; raises Unknown when a condition cannot be evaluated."""
+    somes = [(bb, sp) for (bb, rv, sp, dst) in b.aggregates("core::option::Option", "Some") if dst["l"] == 0]
+    if not somes:
+        return None
+    from_div = b.reachable(div_bb)
+    per_some = []
+    for (bb, sp) in somes:
+        rel = []
+        for a in G.guard_atoms(b, bb, prog):
+            if a[0] not in ("eq", "lt", "is_some"):
+                continue
+            if any(K.mentions(x, lambda t: t[0] == "bin" and t[1] in ("Rem", "BitAnd")) for x in a[1]):
+                continue
+            m_walk = any(K.mentions(x, lambda t: t == walking) for x in a[1])
+            m_idx = any(K.mentions_arg(b, x, idxpos) for x in a[1])
+            if not (m_walk or m_idx):
+                continue
+            s_bb = a[3]
+            where = None
+            if m_walk and walking[0] != "param":
+                after = s_bb in from_div
+                before = div_bb in b.reachable(s_bb)
+                if after and before:
+                    raise Unknown("condition on the walking variable inside the loop")
+                where = "post" if after else "pre"
+            rel.append((a, where))
+        per_some.append(rel)
+    if not any(per_some):
+        return None
+
+    def acc(idx, L):
+        res = False
+        for rel in per_some:
+            ok = True
+            for (a, where) in rel:
+                wv = (idx >> L) if where == "post" else idx
+                env = make_env(b, idxpos, proofpos, idx, L, walking, wv)
+                if eval_atom(a[0], a[1], env) != a[2]:
+                    ok = False
+                    break
+            res = res or ok
+        return res
+    return acc
+
+
+def verdict_accepts(cb, prog, wnames, idxpos, proofpos):
+    """for a bool verdict function: (idx, L) -> 'can the verdict be true for some value of the non-index conditions'"""
+    tt = paths.bool_truth_table(cb, prog)
+    if tt is None:
+        raise Unknown("no truth table for " + cb.defpath)
+    terms, table = tt
+    idx_terms = []
+    for i, t in enumerate(terms):
+        if not (isinstance(t, tuple) and t and t[0] in ("eq", "lt", "is_some")):
+            continue
+        args = t[1]
+        if any(K.mentions_arg(cb, x, idxpos) for x in args if isinstance(x, tuple)) and not any(
+                any(K.mentions_call(x, w.rsplit("::", 1)[-1]) for w in wnames) for x in args if isinstance(x, tuple)):
+            idx_terms.append(i)
+
+    def acc(idx, L):
+        env = make_env(cb, idxpos, proofpos, idx, L)
+        fixed = {i: eval_atom(terms[i][0], terms[i][1], env) for i in idx_terms}
+        return any(v for asg, v in table.items() if all(asg[i] == fv for i, fv in fixed.items()))
+    return acc, len(idx_terms)
 
 
 def check(run):
@@ -94,6 +264,44 @@ def check(run):
             details.append((fshort(cb.defpath), dep))
             if not dep:
                 ok_b = False
+        # (c) exactness of the accepted index domain: evaluate the index conditions of the walker and of each verdict function
+        #     over index in [0, 2^(len+1)+2], len in [0, 5]; accepted  <=>  index < 2^len
+        try:
+            pnames = {b.local_name(i): i for i in range(1, b.argc + 1)}
+            pv = b.provenance(walking)
+            ip = [pnames[n] for n in pv["params"] if n in pnames]
+            pp = [i for i in range(1, b.argc + 1) if i not in ip and any(
+                K.mentions_arg(b, b.operand_term(x), i) for c in b.calls() if c.name.rsplit("::", 1)[-1] in ("as_ref", "iter", "into_iter") for x in c.args)]
+            if len(ip) != 1 or len(pp) != 1:
+                raise Unknown("cannot identify index/proof parameters: %r %r" % (ip, pp))
+            idxpos, proofpos = ip[0], pp[0]
+            wacc = walker_accepts(b, prog, walking, div[0], idxpos, proofpos)
+            vaccs = []
+            for c in callers:
+                cb = c.body
+                if cb.rec.get("sig", "").split("->")[-1].strip() != "bool":
+                    continue
+                ai = cb.operand_term(c.args[idxpos - 1])
+                ap = cb.operand_term(c.args[proofpos - 1])
+                if ai[0] != "param" or K.peel(ap)[0] != "param":
+                    raise Unknown("verdict function passes a computed index/proof")
+                va, n_terms = verdict_accepts(cb, prog, wnames, ai[1], K.peel(ap)[1])
+                vaccs.append((fshort(cb.defpath), va, n_terms))
+            wrong = []
+            for (idx, L) in DOMAIN:
+                w = True if wacc is None else wacc(idx, L)
+                want = idx < 2 ** L
+                if vaccs:
+                    for (vn, va, _n) in vaccs:
+                        got = w and va(idx, L)
+                        if got != want:
+                            wrong.append((vn, idx, L, got))
+                elif w != want:
+                    wrong.append((key, idx, L, w))
+            o.check(not wrong, key + "|index-domain-exact", "index conditions accept exactly 0 <= index < 2^len (evaluated for len 0..5, index 0..2^(len+1)+2)", b.span,
+                    {"first_wrong": [{"fn": x[0], "index": x[1], "proof_len": x[2], "accepted": x[3]} for x in wrong[:4]], "verdict_fns": [(x[0], x[2]) for x in vaccs]})
+        except Unknown as e:
+            run.notes.append("O15.1 %s: exactness of the index domain not decided (%s); only dependence on the residual is checked" % (key, e))
         if ok_a:
             o.ok(key + "|residual-checked-in-walk", "the positive result is guarded by a comparison on the residual index", b.span)
         elif verdicts and ok_b:
